@@ -75,9 +75,15 @@ def _one(args):
                 N = min(N, 4 if k == 1 else 3)
             if vtype != "sympy" and k == 1:
                 N = min(N, 4)
-            inst = hermitian.gen_instance(rng, d=d, k=k, N=N, vtype=vtype,
-                                          corner="zero_block" if idx < 6 else
-                                          "degenerate_fd" if idx < 12 and d >= 4 else None)
+            corner = "zero_block" if idx < 6 else "degenerate_fd" if idx < 12 and d >= 4 else \
+                "selective_last" if idx < 18 else None
+            kw = {}
+            if corner == "selective_last":
+                kw = dict(sizes=rng.choice([[1, 3], [2, 3], [1, 1, 3], [3, 3]]), shuffle=False)
+                kw["d"] = sum(kw["sizes"])
+                d = kw.pop("d")
+                N = max(N, 4) if k == 1 else N
+            inst = hermitian.gen_instance(rng, d=d, k=k, N=N, vtype=vtype, corner=corner, **kw)
         except Regenerate:
             continue
         desc = hermitian.describe(inst)
